@@ -447,10 +447,15 @@ func (ctx *Ctx) cmpLC(lc lc, path []byte, cond op, right []byte) bool {
 	for i := 0; i < ctx.ln; i++ {
 		v := &ctx.vars[i]
 		if v.key == ctx.bufS[0] {
-			switch lc {
-			case lcLen:
+			switch {
+			case v.val == nil && len(v.buf) > 0 && lc == lcLen:
+				// Special case: var is a byte slice.
+				ctx.bufI = len(v.buf)
+			case v.val == nil && len(v.buf) > 0 && lc == lcCap:
+				ctx.bufI = cap(v.buf)
+			case lc == lcLen:
 				ctx.Err = v.ins.Length(v.val, &ctx.bufI, ctx.bufS[1:]...)
-			case lcCap:
+			case lc == lcCap:
 				ctx.Err = v.ins.Capacity(v.val, &ctx.bufI, ctx.bufS[1:]...)
 			default:
 				return false
